@@ -283,7 +283,7 @@ def run_discriminated_forbid(ctx, n, only=None):
     rng = ctx.rng
     for i in range(n):
         spec = only or {"nfields": rng.choice([0, 0, 1, 2]), "aliased": rng.random() < 0.4, "strangers": rng.sample(["zz", "type_", "f0_", ""], rng.choice([0, 0, 1, 2])),
-                        "present": rng.random() < 0.8, "tagfield": rng.choice(["type", "kind", "it's"])}
+                        "present": rng.random() < 0.8, "tagfield": rng.choice(["type", "kind", "it's"]), "two_level": rng.random() < 0.4, "via": rng.choice(["base", "mid"])}
         case = {"discriminated_forbid": spec}
         ctx.count(case, True, kind=f"discr-forbid:fields={spec['nfields']}")
         tf = spec["tagfield"]
@@ -297,10 +297,23 @@ def run_discriminated_forbid(ctx, n, only=None):
                 ns[f"f{k}"] = dataclasses.field(default=7, metadata=field_options(alias=f"F{k}") if spec["aliased"] else {})
             ns["__annotations__"] = ann
             ns["__module__"] = __name__
-            V = dataclasses.dataclass(type(f"DF{i}_V", (Base,), ns))
+            parent, entry, tagkey = Base, Base, tf
+            if spec.get("two_level"):
+                # a class in between with a discriminator (and field) of its own: the leaf is reachable through both
+                cfg2 = type("Config", (BaseConfig,), {"discriminator": Discriminator(field="sub", include_subtypes=True), "forbid_extra_keys": True})
+                Mid = dataclasses.dataclass(type(f"DF{i}_M", (Base,), {"__annotations__": {}, "Config": cfg2, "__module__": __name__}))
+                globals()[Mid.__name__] = Mid
+                names.append(Mid.__name__)
+                parent = Mid
+                ns["sub"] = "v"
+                if spec.get("via") == "mid":
+                    entry, tagkey = Mid, "sub"
+            V = dataclasses.dataclass(type(f"DF{i}_V", (parent,), ns))
             for c in (Base, V):
                 globals()[c.__name__] = c
                 names.append(c.__name__)
+            Base = entry
+            tf = tagkey
             d = {tf: "v"}
             if spec["present"]:
                 for k in range(spec["nfields"]):
